@@ -181,7 +181,7 @@ PROPS = {
              "per-client order (over tcp/tls also no gap), every acknowledged message of a gracefully closed tcp/tls connection delivered "
              "(runs without early Stop), GetNumConnToCollector() back to 0, Stop returns (30 s bound, normal ms), afterwards no goroutine with "
              "a pkg/collector frame and this process owns no socket on the collector's port (/proc/self/fd against /proc/self/net/*); race detector reports with a go-ipfix frame are "
-             "violations. Non-trivial = deliveries of >= 2 clients interleaved; distinct by hash of the delivery interleaving. ALSO: Clients stuck mid-message, and over tls peers stuck in the middle of the handshake, keep their connections open until Stop has returned; a third of the larger datagram clients send a burst of 40+ datagrams past the pacing while the consumer stands still (order must hold).",
+             "violations. Non-trivial = deliveries of >= 2 clients interleaved; distinct by hash of the delivery interleaving. ALSO: Clients stuck mid-message, and over tls peers stuck in the middle of the handshake, keep their connections open until Stop has returned; a third of the larger datagram clients send a burst of 40+ datagrams past the pacing while the consumer stands still (order must hold). Alongside the cases every datagram batch (udp4/6, dtls4/6) runs one refresh session of its own: 3-5 templates, exporter refresh interval 1 s, template lifetime 3 s at the collector, 4.2 s of silence, then one data record per template must be delivered as sent (not-delivered-after-refresh; confirmed on a second fresh session before it is reported).",
              COMMON_ASSUME + ["the goroutine that calls Stop() first waits for GetAddress() != nil (the only readiness signal the API offers)",
                               "udp runs where fewer than half of the datagrams are delivered are inconclusive, not held", "DTLS is excluded by the property"],
              "runtime monitor: offline exactly-once/order checker over a recorded event log + goroutine/socket leak probes; race detector; GOMAXPROCS sweep"),
